@@ -14,6 +14,7 @@ names of those elements or near misses of them.  Oracle:
 The element table, the identifier -> element map and the applicability table are written here
 from the documentation; nothing is read back from giscanner.
 """
+import os
 import shutil
 import subprocess
 import sys
@@ -1163,6 +1164,8 @@ def known_shape(case, v):
 
 def plan(tier):
     n = 19 if tier == 'quick' else 2500
+    if os.environ.get('VERIF_C03_N'):          # development aid: cases per shard
+        n = int(os.environ['VERIF_C03_N'])
     return [{'n': n, 'part': i} for i in range(16)]
 
 
